@@ -43,6 +43,26 @@ CHECKS = {
    technique="bounded-exhaustive input enumeration of prefix-list and MP splitters vs an independent reference codec",
    text="All IPv4 prefix lists up to 3 / IPv6 up to 2 with every length, add-path ids, every truncation and length-octet corruption through all seven exported entry points; MP_REACH for every next-hop length octet 0..255 x body-length relations x flags, MP_UNREACH, IPv6 next hops of every length: exact (id, length, leading bits) sequences, whole-field consumption, failure conditions and notifications.",
    note="trusted: refmodel/prefix.go"),
+ "C03": dict(level="exploration", design="4/C03",
+   technique="bounded-exhaustive enumeration of message sequences x TCP segmentations through the virtual wire into the real reader/FSM/handler, plus delay-bounded schedule exploration for short streams",
+   text="All sequences of up to 3 (quick) / 4 (thorough) messages over {KEEPALIVE, UPDATE of 0,1,4,23,4077 bytes} crossed with fixed write sizes (incl. 1-byte writes), every partition with up to two cut points from a dense position set, read coalescing on/off and both directions; handler notifications at the j-th UPDATE; the handler log must equal the sent bodies (once, in order, byte-exact), delivered slices are re-compared at the end and must not alias; reader/FSM/handler interleavings within the delay bound for the short streams.",
+   note="trusted: vinstr/vrt/vnet; segmentation model A3"),
+ "C04": dict(level="model_checking", design="4/C04",
+   technique="stateless model checking of the implementation: delay-bounded exhaustive schedule exploration of concurrent WriteUpdate callers vs keepalive timer vs teardown, strict frame parser on all written bytes, race detector",
+   text="WriteUpdate from inside OnEstablished, from inside the handler and from 1-3 free goroutines, timed to coincide with the keepalive timer and with FIN / received NOTIFICATION / handler NOTIFICATION / Close, followed by reconnection and reuse of the old writers; all schedules within the delay bound on the real code; every byte corebgp wrote is parsed strictly per connection and matched as a multiset and per-goroutine order against the calls' return values.",
+   note="trusted: vinstr/vrt/vnet; Write atomicity assumption A3"),
+ "C06": dict(level="exploration", design="4/C06",
+   technique="bounded-exhaustive enumeration of (local hold, remote hold, traffic pattern, write pattern, timer semantics) in virtual time on the real FSM, plus delay-bounded schedule exploration around expiry",
+   text="The 8x8 hold-time grid x 7 remote traffic patterns (incl. KEEPALIVE 1 ns before and exactly at expiry) x 3 local write patterns x both Go timer-channel semantics, each run for 3 hold times of virtual time (10x65535 s for hold 0) with time-stamped wire observations: negotiated value, no early expiry, expiry with (4,0)+EOF after silence, keepalive/UPDATE cadence <= hold/3 + 1 s, hold 0 never expires and sends no periodic KEEPALIVEs.",
+   note="trusted: vinstr/vrt virtual clock; zero-time computation A4"),
+ "C16": dict(level="exploration", design="4/C16",
+   technique="bounded-exhaustive input enumeration of UpdateDecoder.Decode vs an independent reference partitioner",
+   text="All byte strings up to length 7 (quick) / 9 (thorough) over a 12-symbol protocol alphabet, a grammar-generated set with length-field mutations, 4077-byte bodies and bodies above 65535 bytes for all boundary pairs of the two length fields; recorded callback arguments must equal the reference partition (withdrawn, each attribute with type/flags/value, NLRI), duplicate suppression, MP duplicate abort, overrun rules, no callback on message-level overrun, no panic.",
+   note="trusted: refmodel/update.go"),
+ "C17": dict(level="exploration", design="4/C17",
+   technique="bounded-exhaustive enumeration of UPDATE bodies x callback behaviours x error trees vs a reference RFC 7606 classifier",
+   text="The C16 inputs with nil callbacks (nil-vs-error boundary), the grammar set crossed with 8 callback behaviours on the first three invocations, and all error trees up to 6 (quick) / 7 (thorough) nodes for UpdateNotificationFromErr: nil iff consistent, mandatory attributes present and callbacks nil; every callback error kept; decoding stops at the first Notification-class event; strongest class as prescribed; severity walk equals the reference.",
+   note="trusted: refmodel/update.go"),
 }
 
 NOT_YET = "check not built yet (framework under construction; see DESIGN.md section 8)"
